@@ -61,7 +61,7 @@ func (s *genState) genGraph(depth int) int {
 	if r.Chance(1, 4) {
 		g.Wf, g.Dag = true, true // a compose.Workflow: all predecessors, eager
 	}
-	if n >= 2 && r.Chance(1, 5) {
+	if n >= 2 && r.Chance(1, 4) {
 		// some nodes sit behind a multi-branch from START (a branch needs two targets); at
 		// least one of them is selected
 		nb := r.Range(2, n)
@@ -70,6 +70,9 @@ func (s *genState) genGraph(depth int) int {
 		for j, i := range idx {
 			g.Nodes[i].Br = true
 			g.Nodes[i].Runs = j == keep || r.Chance(1, 2)
+			if j != keep && g.Nodes[i].Kind == "sub" && r.Chance(1, 2) {
+				g.Nodes[i].Runs = false // a whole sub graph that does not execute in this call
+			}
 		}
 		if g.Wf && nb == n {
 			// a workflow whose only way out of START is a branch does not compile ("start node
@@ -243,8 +246,54 @@ func (s *genState) genPath(want int) []int {
 		}
 	case 4:
 		p[r.Intn(len(p))] = r.Range(1, 7)
+	case 5, 6, 7, 8, 9, 10:
+		// a fault inside a sub graph that does not execute in this call (validation is eager:
+		// F-C16c); nothing to do when every sub graph executes
+		if q := s.badInUnselected(); q != nil {
+			return q
+		}
 	}
 	return p
+}
+
+// badInUnselected: a malformed path (unknown key, below a component, or to a component of
+// whatever type: mostly the wrong one) that runs through a sub graph node a branch leaves
+// unselected in this case. nil: there is none.
+func (s *genState) badInUnselected() []int {
+	r := s.r
+	var inside []pnode
+	for _, pn := range s.allPaths() {
+		gi, dead := 0, false
+		for i, k := range pn.p {
+			nd := findNode(s.c.Forest[gi], k)
+			if nd == nil {
+				break
+			}
+			if i < len(pn.p)-1 && nd.Kind == "sub" && !nd.Runs {
+				dead = true
+			}
+			gi = nd.Sub
+		}
+		if dead {
+			inside = append(inside, pn)
+		}
+	}
+	if len(inside) == 0 {
+		return nil
+	}
+	pn := inside[r.Intn(len(inside))]
+	q := append([]int{}, pn.p...)
+	switch r.Intn(3) {
+	case 0:
+		q[len(q)-1] = 9
+	case 1:
+		if pn.nd.Kind != "sub" {
+			q = append(q, r.Range(1, 6))
+		} else {
+			q = append(q, 9)
+		}
+	}
+	return q
 }
 
 func (s *genState) genItems(base int, next *int) [][2]int {
@@ -255,6 +304,10 @@ func (s *genState) genItems(base int, next *int) [][2]int {
 		ty = r.Range(1, numTy-1)
 	case 1:
 		return [][2]int{} // WithLambdaOption()
+	case 2:
+		if r.Chance(1, 2) {
+			ty = tyNil // WithLambdaOption(nil): an option value without a type
+		}
 	}
 	n := 1
 	if r.Chance(1, 3) {
@@ -454,6 +507,16 @@ func (engine) Generate(r *lib.Rng, tier string, i int) any {
 		cl := s.genCall(ci)
 		if s.c.Share && ci > 0 {
 			cl = s.shareWith(s.c.Calls[0].Script, s.c.Calls[0].Pass, cl)
+		}
+		if r.Chance(1, 3) {
+			cl.Host = r.Range(1, 4) // issued from inside a lambda node of another running graph / with handlers in the context
+			if cl.Host == 4 || r.Chance(1, 2) {
+				cl.HostHs = []int{70 + 3*ci}
+				if r.Chance(1, 3) {
+					cl.HostHs = append(cl.HostHs, 71+3*ci+r.Intn(2))
+				}
+			}
+			cl.HostBait = cl.Host != 4 && r.Chance(1, 2)
 		}
 		s.c.Calls = append(s.c.Calls, cl)
 	}
